@@ -83,5 +83,38 @@ def _c01():
     }
 
 
+def _c08():
+    from . import engine_t
+    ST = ("-Z", "stubbing")
+    STUBS = ["std::hash::RandomState::new -> fixed keys", "alloc::fmt::format -> empty string",
+             "Number::convert -> contract stub: same early returns; asserts the pair has an entry in the table dumped from "
+             "this build (the real convert panics otherwise); returns a fresh value and logs (argument, from, to)"]
+    hs = [
+        {"name": "c08::c08a_comparable_iff_entry", "tiers": Q, "covers": ["end", "none", "identity", "convertible_pair", "inconvertible_pair"],
+         "bound": "all ordered pairs of the 34 simple units and unitless (index pair symbolic)"},
+        {"name": "c08::c08a_roundtrip_transitive", "tiers": Q, "covers": ["end", "roundtrip", "transitive"],
+         "bound": "all ordered triples of the 34 simple units; factors from the dumped table; 4 ulp"},
+        {"name": "c08::c08a_css_anchors", "tiers": Q, "bound": "13 CSS ratios, 1 ulp"},
+        {"name": "c08::c08b_add", "tiers": Q, "flags": ST, "covers": ["end", "rejected", "converted", "adopted_unit"],
+         "bound": "evaluate::bin_op::add on two numbers: all 35x35 unit pairs, operands from {1.5,-2,0,1e300}x{0.25,3,-0,inf}"},
+        {"name": "c08::c08b_sub", "tiers": Q, "flags": ST, "covers": ["end", "rejected", "converted", "adopted_unit"],
+         "bound": "evaluate::bin_op::sub, same universe"},
+    ]
+    return {
+        "pre": [engine_t.dump_units],
+        "flags": (),
+        "timeout": {"quick": 900, "thorough": 1800},
+        "harnesses": hs,
+        "functions": ["unit::Unit::{comparable, kind}", "unit::conversion::UNIT_CONVERSION_TABLE (dumped through the real "
+                      "HashMap on every run)", "evaluate::bin_op::{add, sub} (number x number arms)", "value::sass_number (PartialEq)"],
+        "bounds": "34 simple units + unitless, all pairs/triples; compound and unknown units outside",
+        "stubs": STUBS,
+        "assumptions": ["the table dump (engine T) reads the real Lazy<HashMap> natively; iteration order is irrelevant (sorted)"],
+        "outside": "multiply_units cancellation (HashMap-backed conversion_factor), math.* functions, compound units, "
+                   "Number::convert's own 3-line body (its table lookup is replaced by the dumped table)",
+    }
+
+
 PROPS["C01"] = _c01()
+PROPS["C08"] = _c08()
 PROPS["C17"] = _c17()
